@@ -17,10 +17,8 @@ Definition bcast_fes : list skel := [sync_tcp; sync_udp; sync_serial; aio_tcp; a
 Definition nobcast_fes : list skel := [tw_tcp; tw_udp].
 (* front-ends whose send() honours should_respond *)
 Definition gated_fes : list skel := [sync_tcp; sync_udp; sync_serial; aio_tcp; aio_udp; tw_tcp].
-(* front-ends whose entry point gives the unit list to the framer *)
-Definition filtered_fes : list skel := [sync_tcp; sync_udp; sync_serial; aio_tcp; aio_udp; tw_tcp].
-(* front-ends whose handle() adds unit 0 to that list when broadcast is enabled *)
-Definition append0_fes : list skel := [sync_tcp; sync_serial; aio_tcp; aio_udp].
+(* every entry point gives the unit list to the framer (Twisted UDP too since /repo b36db33), and every front-end
+   that has broadcast_enable appends unit 0 to that list when it is set (sync UDP too since /repo 168efb6) *)
 
 Definition has_bcast (sk : skel) : bool := match sk_bcast sk with Some _ => true | None => false end.
 Definition gated (sk : skel) : bool := match sk_send_gate sk with CTrue => false | _ => true end.
@@ -708,18 +706,18 @@ Proof. intros. unfold zmem. apply existsb_app. Qed.
 Lemma zmem_in : forall k l, In k l -> zmem k l = true.
 Proof. intros k l H. unfold zmem. apply existsb_exists. exists k. split; [exact H | lia]. Qed.
 
-Lemma c10_accepts_spec : forall sk, In sk filtered_fes -> forall cfg hosted uid,
+Lemma c10_accepts_spec : forall sk, In sk all_fes -> forall cfg hosted uid,
   accepts code sk cfg hosted uid =
     let ul := unit_list sk cfg hosted in
     Ok (cf_single cfg || zmem 0 ul || zmem 255 ul || zmem uid ul).
 Proof.
-  intros sk H cfg hosted uid. cbv [filtered_fes In] in H.
-  repeat (destruct H as [<- | H]; [ unfold accepts; cbn [sk_passes_units sync_tcp sync_udp sync_serial aio_tcp aio_udp tw_tcp];
+  intros sk H cfg hosted uid. cbv [all_fes frontends map snd In] in H.
+  repeat (destruct H as [<- | H]; [ unfold accepts; cbn [sk_passes_units sync_tcp sync_udp sync_serial aio_tcp aio_udp tw_tcp tw_udp];
                                     rewrite unit_filter_spec; reflexivity | ]).
   destruct H.
 Qed.
 
-Lemma c10_hosted_accepted : forall sk, In sk filtered_fes -> forall cfg hosted uid,
+Lemma c10_hosted_accepted : forall sk, In sk all_fes -> forall cfg hosted uid,
   cf_single cfg = true \/ In uid hosted -> accepts code sk cfg hosted uid = Ok true.
 Proof.
   intros sk H cfg hosted uid Hh. rewrite (c10_accepts_spec sk H). cbv zeta. f_equal.
@@ -729,39 +727,61 @@ Proof.
   rewrite Hz. rewrite !orb_true_r. reflexivity.
 Qed.
 
-(* broadcast enabled: frames for unit 0 are handed to the server even when unit 0 is not hosted *)
-Lemma c10_broadcast_accepted : forall sk, In sk append0_fes -> forall cfg hosted,
+(* broadcast enabled: frames for unit 0 are handed to the server even when unit 0 is not hosted — on EVERY front-end that
+   has the option *)
+Lemma c10_broadcast_accepted : forall sk, In sk bcast_fes -> forall cfg hosted,
   cf_bcast cfg = true -> accepts code sk cfg hosted 0 = Ok true.
 Proof.
   intros sk H cfg hosted Hb.
-  assert (Hf : In sk filtered_fes) by (cbv [append0_fes filtered_fes In] in *; tauto).
+  assert (Hf : In sk all_fes) by (apply bcast_fes_all; exact H).
   rewrite (c10_accepts_spec sk Hf). cbv zeta. f_equal.
   assert (Hz : zmem 0 (unit_list sk cfg hosted) = true).
-  { cbv [append0_fes In] in H.
+  { cbv [bcast_fes In] in H.
     repeat (destruct H as [<- | H];
-            [ unfold unit_list; cbn [sk_append0 sync_tcp sync_serial aio_tcp aio_udp ceval mkenv ce_bcast_enable ce_units];
+            [ unfold unit_list; cbn [sk_append0 sync_tcp sync_udp sync_serial aio_tcp aio_udp ceval mkenv ce_bcast_enable ce_units];
               rewrite Hb; cbn [andb]; destruct (zmem 0 hosted) eqn:E; cbn [negb];
               [ exact E | rewrite zmem_app; cbn; apply orb_true_r ] | ]).
     destruct H. }
   rewrite Hz. rewrite orb_true_r. reflexivity.
 Qed.
 
-(* … but not on the sync UDP handler, whose handle() lacks the append *)
-Lemma c10_broadcast_accepted_refuted :
-  ~ (forall sk, In sk bcast_fes -> forall cfg hosted, cf_bcast cfg = true -> accepts code sk cfg hosted 0 = Ok true).
+(* the Twisted front-ends (no broadcast option) give the framer exactly the hosted ids: unit 0 is filtered like any id *)
+Lemma c10_twisted_unit_list : forall sk, In sk nobcast_fes -> forall cfg hosted, unit_list sk cfg hosted = hosted.
 Proof.
-  intros H.
-  specialize (H sync_udp ltac:(cbv [bcast_fes In]; tauto)
-                {| cf_single := false; cf_bcast := true; cf_ignore := false |} [1] eq_refl).
-  vm_compute in H. discriminate H.
+  intros sk H cfg hosted. cbv [nobcast_fes In] in H.
+  repeat (destruct H as [<- | H]; [ reflexivity | ]). destruct H.
 Qed.
 
-(* the Twisted UDP entry point never reaches the framer's unit filter *)
-Lemma c10_tw_udp_dead : forall cfg hosted uid, accepts code tw_udp cfg hosted uid = Raise TypeError.
-Proof. reflexivity. Qed.
+Lemma c10_twisted_accepts : forall sk, In sk nobcast_fes -> forall cfg hosted uid,
+  accepts code sk cfg hosted uid = Ok (cf_single cfg || zmem 0 hosted || zmem 255 hosted || zmem uid hosted).
+Proof.
+  intros sk H cfg hosted uid. rewrite (c10_accepts_spec sk (proj1 (nobcast_fes_all sk H))). cbv zeta.
+  rewrite (c10_twisted_unit_list sk H). reflexivity.
+Qed.
+
+(* the Twisted UDP entry point now filters exactly like the asyncio datagram handler with broadcast off *)
+Lemma c10_tw_udp_accepts_like_aio_udp : forall cfg hosted uid,
+  cf_bcast cfg = false -> accepts code tw_udp cfg hosted uid = accepts code aio_udp cfg hosted uid.
+Proof.
+  intros cfg hosted uid Hb. unfold accepts, unit_list.
+  cbn [sk_passes_units sk_append0 tw_udp aio_udp ceval mkenv ce_bcast_enable]. rewrite Hb. reflexivity.
+Qed.
+
+(* … and answers a delivered request exactly like it, unless request.execute returns a listen-only response
+   (Twisted UDP's _send has no should_respond test) *)
+Lemma c09_tw_udp_like_aio_udp : forall S cfg (l : units S) (rq : dreq S),
+  cf_bcast cfg = false ->
+  (forall s, match snd (rq_exec rq s) with Ok r => rs_respond r = true | Raise _ => True end) ->
+  respond S code tw_udp cfg l rq = respond S code aio_udp cfg l rq.
+Proof.
+  intros S cfg l rq Hb Hr. rewrite tw_udp_spec, aio_udp_spec. unfold spec_respond, sp_bcast. rewrite Hb. cbn [andb].
+  destruct (exec_on S code cfg l (rq_uid rq) rq) as [[l' [r|e]]|] eqn:E; try reflexivity.
+  apply exec_on_some in E. destruct E as (s & _ & _ & Hs). specialize (Hr s). rewrite <- Hs in Hr.
+  unfold send_of. rewrite Hr. reflexivity.
+Qed.
 
 (* a frame for a unit outside the list is dropped unless the list contains 0 or 255 *)
-Lemma c10_foreign_dropped : forall sk, In sk filtered_fes -> forall cfg hosted uid,
+Lemma c10_foreign_dropped : forall sk, In sk all_fes -> forall cfg hosted uid,
   cf_single cfg = false ->
   let ul := unit_list sk cfg hosted in
   zmem 0 ul = false -> zmem 255 ul = false -> zmem uid ul = false ->
